@@ -751,6 +751,8 @@ class ModelsOps:
     def call_type(self, t: TypeV, args, kwargs, node):
         I = self.I
         name = t.name
+        if name == "object" and not args:
+            return ObjV(None, self.st.fresh("sentinel"))        # a fresh object: equal to and identical with itself only
         if self.is_exception_class(name):
             fr = I.frames[-1] if I.frames else None
             where = f"{fr.fi.qualname}:{getattr(node, 'lineno', '?')}" if fr is not None and fr.fi is not None else None
@@ -789,6 +791,8 @@ class ModelsOps:
                 rf = self.st.norm(v.rf)
                 if rf.is_const() and rf.const_value().denominator == 1:
                     return Num(rf, "int")
+                if self.st.integer_valued(rf):
+                    return Num(rf, "int")       # int() of an integer-valued expression is the identity
                 self.flag("int-truncation", node, "int() of a non-integral number")
                 return Num(self.ufn("int", v.rf), "int")
             if isinstance(v, StrV):
@@ -977,10 +981,45 @@ class ModelsOps:
         I.raise_("TypeError", node)
 
     # ---------------------------------------------------------- builtins
+    def heap_select(self, largest, k, it, key, node):
+        """heapq.nlargest / nsmallest(k, iterable[, key]) == sorted(iterable, key=key, reverse=largest)[:k]"""
+        I = self.I
+        seq = self.iterate(it, node)
+        if seq is None:
+            I.unsupported(node, "heap selection from an opaque iterable")
+        kw = {"reverse": BoolV(largest)}
+        if key is not None and not isinstance(key, NoneV):
+            kw["key"] = key
+        srt = self.call_builtin("sorted", [ListV(list(seq))], kw, node)
+        items = srt.items
+        if isinstance(k, Num) and self.st.norm(k.rf).is_const():
+            return ListV(items[:max(0, int(self.st.norm(k.rf).const_value()))])
+        if not isinstance(k, Num):
+            I.unsupported(node, "heap selection with a non-numeric count")
+        # symbolic count: one path per value 0..n (n standing for "n or more")
+        n_ = len(items)
+        c = I.choose(n_ + 1, f"count@{getattr(node, 'lineno', '?')}", [str(i) for i in range(n_)] + [f">={n_}"])
+        if c < n_:
+            if not self.decide_cmp("==", k, self.num_const(c), node):
+                raise Infeasible
+        else:
+            if not self.decide_cmp(">=", k, self.num_const(n_), node):
+                raise Infeasible
+        return ListV(items[:c])
+
     def call_builtin(self, name, args, kwargs, node):
         I = self.I
         if name == "hasattr" and len(args) == 2 and isinstance(args[1], StrV) and args[1].const is not None:
             o, a = args[0], args[1].const
+            if isinstance(o, Num):
+                known = {"real", "imag", "numerator", "denominator", "conjugate"}
+                if o.kind in ("dec", "exact", "stddec"):
+                    known |= {"magnitude", "precision", "adjusted", "quantize", "as_fraction", "as_integer_ratio"}
+                if o.kind in ("float",):
+                    known |= {"is_integer", "as_integer_ratio", "hex"}
+                return BoolV(a in known)
+            if isinstance(o, (StrV, NoneV, TupleV, ListV, BoolV)):
+                return BoolV(hasattr({StrV: "", NoneV: None, TupleV: (), ListV: [], BoolV: True}[type(o)], a))
             if isinstance(o, ObjV):
                 if a in o.fields:
                     return BoolV(True)
@@ -994,6 +1033,12 @@ class ModelsOps:
                 if ar.exc.name == "AttributeError":
                     return BoolV(False)
                 raise
+        if name in ("contextlib.suppress", "suppress"):
+            o = OpaqueV("suppress")
+            o.suppress = [getattr(a, "name", None) or "Exception" for a in args]
+            return o
+        if name in ("heapq.nlargest", "heapq.nsmallest", "nlargest", "nsmallest") and len(args) >= 2:
+            return self.heap_select(name.split(".")[-1] == "nlargest", args[0], args[1], kwargs.get("key"), node)
         if name == "operator.itemgetter" and len(args) == 1:
             k0 = args[0]
             return NativeV(lambda a2, k2, n: self.get_item(a2[0], k0, n), "itemgetter")
